@@ -8,7 +8,7 @@ from enum import Enum
 from typing import Optional
 from xml.etree.ElementTree import QName
 
-from xsdata.models.datatype import XmlDate, XmlDateTime, XmlDuration, XmlTime
+from xsdata.models.datatype import XmlDate, XmlDateTime, XmlDuration, XmlPeriod, XmlTime
 
 __NAMESPACE__ = "urn:basic"
 
@@ -158,3 +158,31 @@ class Formats(metaclass=StableHashMeta):
     dmy: Optional[date] = field(default=None, metadata={"type": "Element", "format": "%d/%m/%Y"})
     mdy: Optional[date] = field(default=None, metadata={"type": "Element", "format": "%m/%d/%Y"})
     plain: Optional[XmlDate] = field(default=None, metadata={"type": "Element"})
+
+
+@dataclass
+class Edge(metaclass=StableHashMeta):
+    """Token lists, nillable lists, fixed values, periods, an inner class."""
+
+    class Meta:
+        name = "edge"
+        namespace = "urn:basic"
+
+    @dataclass
+    class Inner(metaclass=StableHashMeta):
+        v: Optional[int] = field(default=None, metadata={"type": "Attribute"})
+        w: list[str] = field(default_factory=list, metadata={"type": "Element", "namespace": "urn:basic"})
+
+    ints: list[int] = field(default_factory=list, metadata={"type": "Element", "tokens": True})
+    levels: list[Level] = field(default_factory=list, metadata={"type": "Attribute", "tokens": True})
+    notes: list[Optional[str]] = field(default_factory=list, metadata={"type": "Element", "nillable": True})
+    year: Optional[XmlPeriod] = field(default=None, metadata={"type": "Element"})
+    month_day: Optional[XmlPeriod] = field(default=None, metadata={"type": "Attribute"})
+    inner: Optional["Edge.Inner"] = field(default=None, metadata={"type": "Element"})
+    inners: list["Edge.Inner"] = field(default_factory=list, metadata={"type": "Element", "name": "in"})
+    fixed_float: float = field(init=False, default=float("nan"), metadata={"type": "Attribute"})
+    fixed_text: str = field(init=False, default="  keep  ", metadata={"type": "Element"})
+    uri: Optional[str] = field(default=None, metadata={"type": "Attribute"})
+    big: Optional[int] = field(default=None, metadata={"type": "Element"})
+    flt: Optional[float] = field(default=None, metadata={"type": "Element"})
+    dec: Optional[Decimal] = field(default=None, metadata={"type": "Attribute"})
